@@ -29,6 +29,7 @@ def oracle(case, obs):
     thrown = []           # exceptions thrown into the call's plan since `armed`
     cur = None
     pid = -1
+    status_failed = False
     for i, e in enumerate(tl):
         k = e[0]
         if k == "main" and e[1] == "call" and sp.state == "idle":
@@ -38,6 +39,8 @@ def oracle(case, obs):
             cur = e[2]
         if k == "req" and e[1] and e[2] in ("abort", "stop", "halt"):
             terminal = True
+        if k == "inject" and e[1] == "status" and len(e) > 3 and e[3] is False:
+            status_failed = True      # a device status failed: FailedStatus is a legitimate exception in flight
         # interruptions
         hit = None
         if k == "req" and e[2] == "pause" and e[3] is False and e[1] and sp.cache is None:
@@ -70,7 +73,7 @@ def oracle(case, obs):
                 if not finished_before:
                     if not thrown:
                         return "%s while no checkpoint was in effect: nothing was thrown into the plan, its cleanup code did not run" % armed
-                    if not terminal and thrown[0] != "FailedPause":
+                    if not terminal and thrown[0] != "FailedPause" and not (status_failed and thrown[0] == "FailedStatus"):
                         return "%s while no checkpoint was in effect: %s (not FailedPause) was thrown into the plan" % (armed, thrown[0])
                 armed = None
         sp.feed(e)
